@@ -138,6 +138,33 @@ def k_args(run, case):
         guarded(run, case, fname, {"x": x, "y": y}, lambda: geometry.umeyama_alignment(x, y, bool(rng.random() < .5)))
     elif fname == "trajectory.merge":
         guarded(run, case, fname, {"a": A, "b": B}, lambda: trajectory.merge([A, B]))
+    elif fname == "Result.add_info/add_stats":
+        # a result filled step by step from dictionaries the caller keeps using (the same statistics
+        # dictionary for two results, an info dictionary that is extended afterwards), then edited
+        # the way evo_ape / evo_rpe edit theirs (title, label, further statistics)
+        info1 = {"title": "first", "label": "APE (m)", "nested": {"limits": [0.0, 2.5]}}
+        stats1 = {"rmse": float(rng.random()), "mean": float(rng.random())}
+        info2, stats2 = {"est_name": "est.txt", "title": "second"}, {"max": 3.0, "rmse": 9.0}
+        order = int(rng.integers(4))
+
+        def build():
+            r1, r2 = result_mod.Result(), result_mod.Result()
+            if order % 2:
+                r1.add_stats(stats1), r1.add_info(info1)
+            else:
+                r1.add_info(info1), r1.add_stats(stats1)
+            r2.add_stats(stats1)
+            r1.add_np_array("error_array", np.arange(3.0))
+            r1.add_trajectory("ref", A)
+            if order // 2:
+                r1.add_info(info2), r1.add_stats(stats2)
+            r1.info["title"] = "edited"
+            r1.info["seed"] = 7
+            r1.stats["rmse"] = -1.0
+            r1.stats["sse"] = 0.5
+            r2.stats["rmse"] = -2.0
+            return r1, r2
+        guarded(run, case, fname, {"info_1": info1, "stats_1": stats1, "info_2": info2, "stats_2": stats2, "traj": A}, build)
     elif fname == "merge_results":
         from vmon.props import C13
         rs = [C13.make_result(rng, ["rmse", "mean"], ["error_array"], {"error_array": 5}, i, "e%d" % i) for i in range(3)]
@@ -252,7 +279,7 @@ FUNCS = ["APE.process_data", "RPE.process_data", "statistics/get_result", "align
          "align_origin(reference)", "associate_trajectories", "matching_time_indices",
          "filters.filter_pairs_by_index", "filters.filter_pairs_by_path", "filters.filter_pairs_by_angle",
          "filters.filter_by_motion", "id_pairs_from_delta", "umeyama_alignment", "trajectory.merge",
-         "merge_results", "trajectory_to_df", "df_to_trajectory", "result_to_df", "trajectory_stats_to_df",
+         "merge_results", "Result.add_info/add_stats", "trajectory_to_df", "df_to_trajectory", "result_to_df", "trajectory_stats_to_df",
          "getters", "split_*", "write_tum_trajectory_file", "write_kitti_poses_file", "write_bag_trajectory",
          "save_res_file", "plot.traj", "plot.traj_colormap", "plot.draw_coordinate_axes",
          "plot.draw_correspondence_edges", "plot.traj_xyz", "plot.traj_rpy", "plot.speeds",
